@@ -72,5 +72,9 @@ Fixpoint lines_lf_aux (cur : bytes) (s : bytes) : list (bytes * bool) :=
   end.
 Definition lines_lf (s : bytes) := lines_lf_aux [] s.
 
+(* last byte is LF; [d] is the answer for the empty string *)
+Fixpoint ends_lf (d : bool) (m : bytes) : bool :=
+  match m with [] => d | c :: m' => ends_lf (c =? LF) m' end.
+
 Definition lower (c : N) : N := if (65 <=? c) && (c <=? 90) then c + 32 else c.
 Definition lowers (s : bytes) : bytes := map lower s.
